@@ -95,7 +95,13 @@ def via_middleware(bib, text, key):
     mrg_mw = _LL["mrg"] if len(text) % 2 else m.MergeCoAuthors(allow_inplace_modification=False)
     out = sep_mw.transform(lib)
     v = out.entries[0][key]
-    back = mrg_mw.transform(out).entries[0][key]
+    merged_lib = mrg_mw.transform(out)
+    back = merged_lib.entries[0][key]
+    # ... and the merged entry separated once more (same blocks, whatever the first two runs left on them): "merging the
+    # pieces with ' and ' and splitting again gives the same pieces", through the middleware pair as well
+    again = sep_mw.transform(merged_lib).entries[0][key]
+    if again != v:
+        return again, back, "second separation of the merged entry differs from the first: " + repr(v)
     return v, back, out.entries[0]["title"]
 
 
